@@ -76,6 +76,7 @@ TYPE_LEN = {
     MsgC2S.FRAMEBUFFER_UPDATE_REQUEST: 10,
     MsgC2S.KEY_EVENT: 8,
     MsgC2S.POINTER_EVENT: 6,
+    MsgC2S.CLIENT_CUT_TEXT: 8,
     MsgC2S.QEMU_CLIENT_MESSAGE: 2,
 }
 
@@ -162,7 +163,8 @@ class RFBServer(Protocol):  # type: ignore[misc]
             buttonmask, x, y = unpack("!BHH", block)
             self.handle_pointerEvent(x, y, buttonmask)
         elif ptype == MsgC2S.CLIENT_CUT_TEXT:
-            self.handle_clientCutText(block)
+            (self._cut_text_len,) = unpack("!xxxI", block)
+            self._handler = self._handle_clientCutText, self._cut_text_len
         elif ptype == MsgC2S.QEMU_CLIENT_MESSAGE:
             (subtype,) = unpack("!B", block)
             if subtype == QemuClientMessage.EXTENDED_KEY_EVENT:
@@ -181,6 +183,12 @@ class RFBServer(Protocol):  # type: ignore[misc]
         for encoding in encodings:
             log.debug(f"Client announces {Encoding.lookup(encoding)!r}")
         self.handle_setEncodings(encodings)
+        self._handler = self._handle_protocol, 1
+
+    def _handle_clientCutText(self) -> None:
+        block = bytes(self.buffer[: self._cut_text_len])
+        del self.buffer[: self._cut_text_len]
+        self.handle_clientCutText(block)
         self._handler = self._handle_protocol, 1
 
     def _handle_qemuExtendedKeyEvent(self) -> None:
